@@ -312,8 +312,14 @@ fn run_history(rng: &mut Rng, n_remote: usize, steps: usize) -> HistOutcome {
             let cmd: String = $cmd;
             let reply = if $p == 0 { local.exec(&cmd) } else { remotes[$p - 1].exec(&cmd) };
             out.log.push(format!("P{} {} -> {}", $p, cmd.replace(&dir_s, "<dir>"), reply));
-            if reply == "TIMEOUT" || reply == "DEAD" {
+            if reply == "TIMEOUT" {
                 out.failed = Some(("inconclusive|child".into(), format!("child process P{} did not answer '{}' ({reply})", $p, cmd.replace(&dir_s, "<dir>"))));
+                return out;
+            }
+            if reply == "DEAD" {
+                // the participant process is gone without having been told to exit: it was
+                // killed by a fault inside library code while executing this command
+                out.failed = Some(("participant-process-died".into(), format!("participant P{} died while executing '{}'", $p, cmd.replace(&dir_s, "<dir>"))));
                 return out;
             }
             reply
@@ -610,6 +616,52 @@ fn racing_opens(rng: &mut Rng, rounds: usize, stats: &mut Counter) -> Option<(St
         return Some(("reopen-sees-other-data|racing".into(), "contents changed across racing opens".into()));
     }
     None
+}
+
+/// The check runs in a child process of its own: the harness process is itself one of the
+/// participants (it opens, holds and drops databases and starts background tasks), and the one
+/// failure the histories cannot report from the inside is the checker being killed by a fault in
+/// library code - e.g. a background task that outlives the last owner of its database and touches
+/// freed state. Death by SIGABRT / SIGSEGV / SIGBUS / SIGILL is reported as a violation with the
+/// command that replays it; SIGKILL (out of memory, external watchdog) is inconclusive.
+pub fn check_c18_supervised(ctx: &Ctx) -> i32 {
+    if std::env::var("VERIF_C18_INNER").is_ok() {
+        return check_c18(ctx);
+    }
+    use std::os::unix::process::ExitStatusExt;
+    let exe = match std::env::current_exe() {
+        Ok(e) => e,
+        Err(_) => return check_c18(ctx),
+    };
+    let args: Vec<String> = std::env::args().skip(1).collect();
+    let status = Command::new(exe).args(&args).env("VERIF_C18_INNER", "1").status();
+    match status {
+        Ok(st) => {
+            if let Some(code) = st.code() {
+                return code;
+            }
+            let sig = st.signal().unwrap_or(0);
+            let report = Report::new("C18");
+            let what = format!("the process that drives the open / hold / drop histories (itself a participant holding databases, readers and background tasks) was killed by signal {sig} inside library code");
+            if sig == 9 {
+                report.inconclusive(format!("{what} (SIGKILL: not attributable)"));
+            } else {
+                report.violation(ctx, Violation { sig: format!("C18|participant-process-killed|signal={sig}"), what, detail: json!({"signal": sig, "replay": format!("VERIF_SEED={} VERIF_C18_INNER=1 anydb-verif C18 --tier {}", ctx.seed, ctx.tier.as_str())}) });
+            }
+            let coverage = json!({
+                "evaluations": 1,
+                "distinct_nontrivial": 0,
+                "rule": "the supervised run of the C18 histories ended abnormally before it could write its own evidence; one evaluation = that run",
+                "samples": [{"outcome": format!("killed by signal {sig}")}],
+            });
+            report.finish(ctx, "exploration", coverage, &["see the normal evidence of this check for what a completed run covers"])
+        }
+        Err(e) => {
+            let report = Report::new("C18");
+            report.harness_error(format!("cannot start the supervised run: {e}"));
+            report.finish(ctx, "exploration", json!({"evaluations": 0, "distinct_nontrivial": 0, "rule": "supervised run could not be started", "samples": []}), &[])
+        }
+    }
 }
 
 pub fn check_c18(ctx: &Ctx) -> i32 {
